@@ -211,7 +211,9 @@ func TestPropServer(t *testing.T) {
 				model = modelApply(model, op)
 				if !op.Nil && strings.Contains(model, "\n") {
 					if _, ok := expectedGo(model); ok {
-						recSrv.NonTrivial(fmt.Sprintf("%q|%v", model, op), func() any { return map[string]any{"edit": op, "document_bytes": len(model), "position_in_notification": j, "notification_size": size} })
+						recSrv.NonTrivial(fmt.Sprintf("%q|%v", model, op), func() any {
+							return map[string]any{"edit": op, "document_bytes": len(model), "position_in_notification": j, "notification_size": size}
+						})
 					}
 				}
 			}
